@@ -34,8 +34,8 @@ def main():
         shards={"quick": [[b, "--tier", "0"] for b in bins], "thorough": [[b, "--tier", "1"] for b in bins]},
         signature=lambda r: "%s %s" % (r.get("solver", "?"), r.get("fault", "?")) if r.get("case") else r.get("detail", "")[:100],
         exhaustive={"quick": True, "thorough": True}, nontrivial_key="fault_reached", fault_kinds_key="fault_kinds_reached",
-        rule="complete enumeration, per solver (Newton-Raphson, Broyden, Broyden2, Powell dog-leg Newton/Broyden, Levenberg-Marquardt), size N in {1,2,3,4,6,8}, "
-             "system family (affine, mildly nonlinear with known root, singular jacobian at the start; plus the affine family scaled by 1e-6, 1e-9 and 1e-12 together with its convergence threshold, with at most one fault) and iterMax, of every set of <= 3 faulty residual evaluations among the first iterMax+2 "
+        rule="complete enumeration, per solver (Newton-Raphson, Broyden, Broyden2, Powell dog-leg Newton/Broyden, Levenberg-Marquardt; Newton-Raphson also with an external workspace made of views and with a heap workspace, these two for N = 5 and 7 too), size N in {1,2,3,4,6,8}, "
+             "system family (affine, mildly nonlinear with known root, singular jacobian at the start; plus the affine family scaled by 1e-6, 1e-9 and 1e-12 together with its convergence threshold, with at most one fault; the equations of an affine system in 48 orders that need row exchanges; Rosenbrock's valley for every budget 1..60; a system whose last equation converges ten iterations after the others, budgets 1..20) and iterMax, of every set of <= 3 faulty residual evaluations among the first iterMax+2 "
              "x fault kind (returns false, NaN / +inf / -inf in the residual, NaN in the jacobian); non-trivial = at least one injected fault was actually reached; cases are distinct by construction",
         assumptions=["only the fault clauses of C08 are decided: no success on a failed / non-finite evaluation, success implies the last residual was evaluated at the returned unknowns and meets the criterion, iter <= iterMax, evaluations <= 2*iterMax+2",
                      "'Newton converges inside its basin' is covered only as bounded liveness: Newton-Raphson on an affine well-conditioned system (at four magnitudes: the method is invariant under a scaling of the residual) converges once rejected evaluations stop and enough iterations are left",
